@@ -23,13 +23,14 @@ open Ytk.TableT
 
 /-- (i) The kind-pair chain of diff.handleExisting, regenerated from diff/diff.go as an ORDERED case
     table, decides as the case table of the model's `emitNode` does — for every pair of node kinds the
-    first matching arm runs the statements the model's decision stands for (stated on the decisions, so
-    reordering disjoint arms is harmless); diffList, flattenLeaf, flattenNode, appendMod, the two key
+    first matching arm runs the statements the model's decision stands for, and those statements stand
+    for no other decision (stated on the decisions, so reordering disjoint arms is harmless); diffList, flattenLeaf, flattenNode, appendMod, the two key
     loops of diff() and the three modification-type constants are the model's; and `emitNode`,
     `emitLeft`, `emitRight`, `flatNode` do what those tables say on ALL nodes. -/
 theorem diff_dispatch_table_matches_model :
     (∀ x ∈ kindShapes, ∀ y ∈ kindShapes,
-      armStepsFor Generated.diffHandleExisting x y = (diffDecision x y).steps) ∧
+      armStepsFor Generated.diffHandleExisting x y = (diffDecision x y).steps ∧
+      DiffAct.ofSteps (armStepsFor Generated.diffHandleExisting x y) = some (diffDecision x y)) ∧
     Generated.diffListSteps = diffListStepsM ∧ Generated.diffFlattenLeafSteps = flattenLeafStepsM ∧
     Generated.diffFlattenNodeSteps = flattenNodeStepsM ∧ Generated.diffAppendModSteps = appendModStepsM ∧
     Generated.diffKeyCases = diffKeyCasesM ∧
@@ -92,7 +93,8 @@ theorem nonvacuous_diff_tables :
     (∀ a ∈ Generated.diffHandleExisting, ∃ x ∈ kindShapes, ∃ y ∈ kindShapes,
       armStepsFor Generated.diffHandleExisting x y = a.steps) ∧
     (Generated.diffModTypes.map (·.1)).Nodup ∧ (Generated.diffModTypes.map (·.2)).Nodup ∧
-    (conds Generated.diffKeyCases).Nodup ∧ Generated.diffKeyCases.length = 4 := by
+    (conds Generated.diffKeyCases).Nodup ∧ Generated.diffKeyCases.length = 4 ∧
+    (DiffAct.all.map DiffAct.steps).Nodup := by
   decide +kernel
 
 end DecisionTables2
